@@ -6,6 +6,8 @@ import (
 	"go/token"
 	"os"
 	"path/filepath"
+	"sort"
+	"strconv"
 	"strings"
 )
 
@@ -191,7 +193,7 @@ func genAries(repo string) (string, error) {
 	b.WriteString("(* Generated by gen/aries.go from aries/service_set.go, aries/host_mux.go,\n" +
 		"   aries/router.go, aries/trie.go. Do not edit. *)\n" +
 		"From Coq Require Import List String.\n" +
-		"From Verif Require Import Aries.Tiers Aries.Router Aries.CtxSeq.\n" +
+		"From Coq Require Import NArith.\nFrom Verif Require Import Aries.Tiers Aries.Router Aries.CtxSeq.\n" +
 		"Import ListNotations.\nLocal Open Scope string_scope.\n\n")
 
 	// ServiceSet.Serve / ServeInternal
@@ -420,6 +422,36 @@ func genAries(repo string) (string, error) {
 			}
 		}
 		fmt.Fprintf(&b, "Definition gen_ctx_accessors : list (string * acc_kind) :=\n  [%s].\n\n", strings.Join(items, "; "))
+	}
+
+	// every integer (literal or constant, 8 and above) the routing sources name:
+	// route and path depths on both sides of each are worth a case
+	{
+		seen := map[int64]bool{}
+		var lits []string
+		scan := func(q *pkg, files map[string]bool) {
+			for _, fn := range q.sortedFiles() {
+				if strings.HasSuffix(fn, "_test.go") || (files != nil && !files[filepath.Base(fn)]) {
+					continue
+				}
+				ast.Inspect(q.files[fn], func(nd ast.Node) bool {
+					if bl, ok := nd.(*ast.BasicLit); ok && bl.Kind == token.INT {
+						if v, err := strconv.ParseInt(bl.Value, 0, 64); err == nil && v >= 8 && !seen[v] {
+							seen[v] = true
+							lits = append(lits, fmt.Sprintf("%d%%N", v))
+						}
+					}
+					return true
+				})
+			}
+		}
+		scan(p, map[string]bool{"route.go": true, "router.go": true, "trie.go": true, "mux.go": true,
+			"service_set.go": true, "host_mux.go": true})
+		if tp, err := loadPkg(filepath.Join(repo, "trie")); err == nil {
+			scan(tp, nil)
+		}
+		sort.Strings(lits)
+		fmt.Fprintf(&b, "Definition gen_aries_int_literals : list N := [%s].\n\n", strings.Join(lits, "; "))
 	}
 
 	// trie.go: newTrieNode sets hit: true; newTrieRoot() = newTrieNode("", "")
